@@ -59,6 +59,16 @@ def mutations(seed: bytes, rnd, quick, stride=1):
     return M[::stride] if stride > 1 else M
 
 
+def sticky_behaviours(v3: bool):
+    """behaviours that last for the whole case: every reply carries another request id; over-long engine time / boots INTEGERs"""
+    M = [("reqid_forever", d, 0) for d in (0, 1, 255)]
+    if v3:
+        for n in (5, 8, 12, 16):
+            M.append(("bigtime", n, 0))
+            M.append(("bigboots", n, 0))
+    return M
+
+
 def apply(seed: bytes, m):
     kind, a, b = m
     if kind == "subst":
@@ -88,6 +98,10 @@ def apply(seed: bytes, m):
     raise ValueError(kind)
 
 
+class RequestFlood(BaseException):
+    """the client keeps sending requests for one operation: ends the case"""
+
+
 def rss_kb():
     return resource.getrusage(resource.RUSAGE_SELF).ru_maxrss
 
@@ -111,6 +125,9 @@ async def run_target(target, proto, muts, seedsel):
 
     async def sender(endpoint, packet, timeout=None, retries=None):
         packet = bytes(packet)
+        state["nreq"] = state.get("nreq", 0) + 1
+        if state["nreq"] > 150:
+            raise RequestFlood()
         is_probe = False
         if proto.startswith("v3"):
             try:
@@ -154,6 +171,17 @@ async def run_target(target, proto, muts, seedsel):
                 c = make_client(ag, proto, sender=sender)        # a fresh client per case: its first exchange is the discovery
             state["mut"] = m
             state["seed_len"] = 0
+            state["nreq"] = 0
+            sticky = m[0] in ("reqid_forever", "bigtime", "bigboots", "bigtime_disco")
+            if sticky:
+                state["mut"] = None
+                state["seed_len"] = 200
+                if m[0] == "reqid_forever":
+                    ag.perturb = lambda req, f: dict(f, reqid=f["reqid"] + 1 + m[1])
+                elif m[0] == "bigboots":
+                    ag.boots_override = 2 ** (8 * m[1]) - 5
+                else:
+                    ag.time_override = 2 ** (8 * m[1]) - 5
             r0 = rss_kb()
             t0 = time.process_time()
             try:
@@ -167,16 +195,36 @@ async def run_target(target, proto, muts, seedsel):
                 outcome = "result"
             except CpuBudget:
                 outcome = "CPU_BUDGET"
+            except RequestFlood:
+                outcome = "REQUEST_FLOOD"
             except MemoryError:
                 outcome = "MEM_BUDGET"
             except Exception:  # noqa
                 outcome = "exception"
             cpu = time.process_time() - t0
             state["mut"] = None
+            state["nreq"] = 0
+            if sticky and m[0] != "bigtime" and m[0] != "bigboots":
+                ag.perturb, ag.time_override, ag.boots_override = None, None, None
+            if sticky and m[0] in ("bigtime", "bigboots"):
+                # one more exchange may still carry the bad values; then the agent is healthy again
+                try:
+                    with cpu_budget(3.0):
+                        await c.get(OID(oidstr(INST)))
+                except (Exception, CpuBudget, RequestFlood):  # noqa
+                    pass
+                ag.perturb, ag.time_override, ag.boots_override = None, None, None
+                state["nreq"] = 0
+                try:
+                    with cpu_budget(3.0):
+                        await c.get(OID(oidstr(INST)))
+                except (Exception, CpuBudget, RequestFlood):  # noqa
+                    pass
+                state["nreq"] = 0
             try:
                 with cpu_budget(3.0):
                     ok = (await c.get(OID(oidstr(INST)))).value == b"value-of-the-object"
-            except (Exception, CpuBudget):  # noqa
+            except (Exception, CpuBudget, RequestFlood):  # noqa
                 ok = False
             out.append(dict(e="case", target=target, proto=proto, mut=list(m), len=max(state["seed_len"], 1) if m[0] not in ("huge", "nest", "nest_tail", "random") else 65000,
                             outcome=outcome, cpu_ms=int(cpu * 1000), rss_growth_kb=max(0, rss_kb() - r0), followup_ok=bool(ok)))
